@@ -254,3 +254,16 @@ func mustElementHumanName(family string) *dtpb.HumanName {
 }
 
 func envVar(name string, v any) fhirpath.EvaluateOption { return evalopts.EnvVariable(name, v) }
+
+// Perm returns a random permutation of 0..n-1.
+func (r *RNG) Perm(n int) []int {
+	p := make([]int, n)
+	for i := range p {
+		p[i] = i
+	}
+	for i := n - 1; i > 0; i-- {
+		k := r.Intn(i + 1)
+		p[i], p[k] = p[k], p[i]
+	}
+	return p
+}
